@@ -1157,6 +1157,16 @@ pub fn gen_schedule(world: &World, cfg: &SchedCfg, rng: &mut SimRng) -> (Vec<Op>
 					if chain.len() == 1 && rng.chance(1, 2) {
 						ops.push(Op::Header { node, id: chain[0] });
 					} else {
+						// peers answer from their own locator match: a batch often starts with one or two
+						// headers the node already has
+						if rng.chance(1, 3) {
+							for _ in 0..rng.range(1, 2) {
+								match world.blocks[chain[0]].parent {
+									Some(p) if p != 0 => chain.insert(0, p),
+									_ => break,
+								}
+							}
+						}
 						ops.push(Op::HeaderBatch { node, ids: chain });
 					}
 				}
